@@ -207,12 +207,40 @@ fn fulfill_promise(
         mem::take(&mut state_mut.handlers)
     };
 
+    // The handlers have left the (traced) promise state: keep all of them, the promise and
+    // the value alive while the earlier handlers run script code
+    let _guard = guard_pending_handlers(interp, promise, &handlers, &value);
+
     // Trigger handlers synchronously
     for handler in handlers {
         trigger_handler(interp, handler, &value, true)?;
     }
 
     Ok(())
+}
+
+/// Root everything a list of detached handlers refers to, plus the settled promise and its value.
+fn guard_pending_handlers(
+    interp: &mut Interpreter,
+    promise: &Gc<JsObject>,
+    handlers: &[PromiseHandler],
+    value: &JsValue,
+) -> Guard<JsObject> {
+    let guard = interp.heap.create_guard();
+    guard.guard(promise.clone());
+    if let JsValue::Object(obj) = value {
+        guard.guard(obj.clone());
+    }
+    for handler in handlers {
+        guard.guard(handler.result_promise.clone());
+        if let Some(JsValue::Object(cb)) = &handler.on_fulfilled {
+            guard.guard(cb.clone());
+        }
+        if let Some(JsValue::Object(cb)) = &handler.on_rejected {
+            guard.guard(cb.clone());
+        }
+    }
+    guard
 }
 
 /// Reject a promise with a reason
@@ -242,6 +270,8 @@ fn reject_promise(
     if let Some(id) = order_id {
         interp.cancelled_orders.push(id);
     }
+
+    let _guard = guard_pending_handlers(interp, promise, &handlers, &reason);
 
     // Trigger handlers synchronously
     for handler in handlers {
